@@ -84,6 +84,20 @@ def make_special_case(rng, kind):
                 return dict(edges=edges, weights=weights, massive=massive, ext=ext, D=D, accepted=True, table=table, dod=dod, loops=Lf,
                             name="integer_dod:" + name)
             continue
+        if kind == "vacuum_massless":
+            # no external vertex and no edge flagged massive: every non-empty subset is mass-momentum spanning, the empty one is not
+            name = rng.choice(["bubble", "sunrise", "triangle", "box"])
+            edges, mp, _ = gen.relabel(rng, list(gen.CATALOGUE[name]))
+            n = len(edges)
+            D = rng.randint(2, 4)
+            massive, ext = [False] * n, []
+            L = oracle.subset_info(edges, massive, ext, (1 << n) - 1)[0]
+            weights = [(L * D / 2.0 + rng.uniform(0.2, 0.6)) / n * rng.uniform(0.9, 1.1) for _ in range(n)]
+            dod, Lf, table = oracle.table_oracle(edges, weights, massive, ext, D)
+            if not oracle.divergent_subsets(table) and dod > Fraction(1, 20):
+                return dict(edges=edges, weights=weights, massive=massive, ext=ext, D=D, accepted=True, table=table, dod=dod, loops=Lf,
+                            name="vacuum_massless:" + name)
+            continue
         if kind == "inf_factor":
             # J of the full graph overflows (two propagator powers ~1e-154): cached_factor = +inf, every sample has jacobian = inf.
             # A format that "preserves f64 exactly" must carry that through (JSON cannot: skipped there)
@@ -158,6 +172,8 @@ def make_kinematics(rng, case, scale=1, decouple=False):
         # the is_massive flags of the graph steer the importance sampling only; the integrand's masses are whatever edge_data says:
         # masses on edges that are not flagged, and flagged edges without a mass
         masses = [(Fraction(rng.randint(1, 12), 4) * sc if rng.random() < 0.4 else Fraction(0)) if rng.random() < 0.5 else m0 for m0 in masses]
+    if decouple and not ext_mom and all(m0 == 0 for m0 in masses):
+        masses[rng.randrange(len(masses))] = Fraction(rng.randint(1, 12), 4) * sc      # a vacuum graph needs some scale for V != 0
     # only m^2 enters every property: a mass may be passed with a negative sign
     masses = [(-m0 if (m0 != 0 and rng.random() < 0.15) else m0) for m0 in masses]
     return dict(S=S, tree=tree, ext_mom=ext_mom, masses=masses, shifts=shifts, plane=plane)
@@ -182,8 +198,13 @@ def make_routing(rng, case, variant="random", kinem=None):
         flips = [rng.choice([1, 1, -1]) for _ in range(n)]
         if rng.random() < 0.5:
             offsets = [[dy(rng, -3, 3) for _ in range(D)] for _ in range(L)]
+    elif variant == "permuted":
+        perm = list(range(L)); rng.shuffle(perm)
+        P = [[(rng.choice([1, -1]) if perm[j] == i else 0) for j in range(L)] for i in range(L)]
+        if rng.random() < 0.5:
+            offsets = [[dy(rng, -3, 3) for _ in range(D)] for _ in range(L)]
     elif variant != "fundamental":
-        P = kin.unimodular(rng, L, big=rng.random() < 0.5)
+        P = kin.unimodular(rng, L, steps=(rng.randint(2 * L, 5 * L) if variant == "big" else None), big=(variant == "big" or rng.random() < 0.5))
         flips = [rng.choice([1, 1, -1]) for _ in range(n)]
         if rng.random() < 0.7:
             offsets = [[dy(rng, -3, 3) for _ in range(D)] for _ in range(L)]
@@ -285,11 +306,20 @@ def generate(ctx, n_graphs, pts, max_e=6, max_loops=3, kinds=("uniform", "unifor
                              "(smallest |omega| %.3e)" % float(margin), graphs.request(c), {"status": b.get("status"), "msg": str(b.get("msg"))[:200]},
                              {"status": "ok"})
             continue
-        dec = rng.random() < decouple
+        dec = rng.random() < decouple or str(c.get("name", "")).startswith("vacuum_massless")
+        # upstream tie: the combinatorial part of the implementation's table (loop number and spanning flag of EVERY subset, the empty
+        # one included) is the exact oracle's; the sampling model is evaluated on the implementation's table
+        ent = b["table"]["entries"]
+        wrong = [m for m in range(len(ent)) if m < len(c["table"]) and (ent[m][0] != c["table"][m][0] or bool(ent[m][1]) != bool(c["table"][m][1]))]
+        if wrong:
+            m0 = wrong[0]
+            ctx.mismatch(f"subgraph table of the implementation vs the exact oracle: subset {m0:#b} has (loops, spanning) = ({ent[m0][0]}, {bool(ent[m0][1])}), "
+                         f"the definition gives ({c['table'][m0][0]}, {bool(c['table'][m0][1])}); {len(wrong)} subsets differ", graphs.request(c),
+                         {"subset": m0, "loops": ent[m0][0], "spanning": bool(ent[m0][1])}, {"subset": m0, "loops": c["table"][m0][0], "spanning": bool(c["table"][m0][1])})
         kinem = make_kinematics(rng, c, scale=rng.choice(scales), decouple=dec)
         kinem["decoupled"] = dec
         routings = [make_routing(rng, c, "fundamental" if (k == 0 and routings_per_graph > 1) else
-                                 ("face" if gen.face_basis(c.get("name", ""), c["edges"]) is not None and rng.random() < 0.7 else variant), kinem)
+                                 ("face" if variant == "random" and gen.face_basis(c.get("name", ""), c["edges"]) is not None and rng.random() < 0.7 else variant), kinem)
                     for k in range(routings_per_graph)]
         for i in range(pts):
             kind = kinds[i % len(kinds)]
